@@ -679,7 +679,7 @@ def random_case(rng):
 
 def gen(ctx):
     rng = ctx.rng('gen')
-    n = 60 if ctx.tier == 'quick' else 800
+    n = 60 if ctx.tier == 'quick' else 4000
     for _ in range(n):
         yield random_case(rng)
 
